@@ -20,6 +20,7 @@ import (
 	"fmt"
 	"sort"
 	"strings"
+	"unicode"
 
 	"golang.org/x/exp/maps"
 	"seehuhn.de/go/sfnt"
@@ -338,7 +339,7 @@ func newExplainer(fontInfo *sfnt.Font) *explainer {
 		a, b := cmap.CodeRange()
 		for r := a; r <= b; r++ {
 			gid := cmap.Lookup(r)
-			if gid != 0 {
+			if gid != 0 && unicode.IsPrint(r) {
 				mappings[gid] = fmt.Sprintf("%q", string([]rune{r}))
 			}
 		}
